@@ -368,6 +368,11 @@ impl<T: RealNumber> DecisionTreeRegressor<T> {
 
         if mtry < n_attr {
             variables.shuffle(rng);
+            #[cfg(feature = "verif-hooks")]
+            crate::verif_hooks::reshuffle(
+                crate::verif_hooks::Draw::TreeFeatureShuffle,
+                &mut variables,
+            );
         }
 
         let parent_gain =
